@@ -103,6 +103,7 @@ def c15_rf19(run):
     rf_tables.rf145(run)
     rf_tables.rf154(run)
     rf_tables.rf169(run)
+    rf_tables.rf184(run)
 
 
 def c15_rf16h(run):
